@@ -2635,4 +2635,20 @@ theorem C04_replace_extended_texts_simpl (f : Forest) (hi : f.Inv) (a b x : Nat)
 
 example : compWitness.replaceSites0 3 11 = [2, 8, 2] ∧ compWitness.replaceSites0 10 11 = [9] := by decide +kernel
 
+/-! ## `any_append` hands out a live node (repair /repo b250b94)
+
+  Found in the last hour of the fourth session by the forest session's oracle "no removed node is handed out": with consolidation
+  on, `any_append(parent, text)` behind a text node merged the given node away and still answered `Ok(child)`.  The repaired code
+  answers the last child of `parent`; `Forest.anyAppendRet` mirrors it.  Closed witness on the minimal history of the finding
+  (`<e>a</e>` and the parentless text node `b`): the call answers the surviving node 1, which is live, node 2 is gone. -/
+
+/-- the state of the minimal history: `new E; new T a; any_append 0 1; new T b` -/
+def anyAppendWitness : Forest :=
+  { roots := [.node 0 (.element 2) [.node 1 (.text ['a']) []], .node 2 (.text ['b']) []], next := 3 }
+
+theorem C04_any_append_returns_live_witness :
+    anyAppendWitness.inv = true ∧ (anyAppendWitness.anyAppend 0 2).2 = (.ok, 1) ∧
+    (anyAppendWitness.anyAppend 0 2).1.isLive 1 = true ∧ (anyAppendWitness.anyAppend 0 2).1.isLive 2 = false ∧
+    (anyAppendWitness.anyAppend 0 2).1.inv = true := by decide +kernel
+
 end XotModel.Props
